@@ -503,7 +503,8 @@ def callback_contained(ctx, R, roles, T, f, chunk_term, rule):
         for (t, region) in n.trys:
             if region == "body":
                 for h in t.handlers:
-                    catch_all = h.type is None or (isinstance(h.type, ast.Name) and h.type.id in ("Exception", "BaseException"))
+                    # "cannot alter or abort the transfer": user code can raise anything, also KeyboardInterrupt / SystemExit or its own BaseException
+                    catch_all = h.type is None or (isinstance(h.type, ast.Name) and h.type.id == "BaseException")
                     hn = [x for x in g.nodes_of(h) if x.kind == "except"]
                     from .c12 import handler_completes
                     if catch_all and hn and handler_completes(g, hn[0]) and len(t.body) == 1:
